@@ -8,7 +8,7 @@ HOOK_COMMITS = ["a9678e6", "5525d47", "bbb9e1e", "95eb2d0"]
 CHECKS = {
  "C01": ("boundary event log + provenance ids checked against an independent MAY matching table (runtime monitor over generated workloads)",
          "Every argument observed inside every generated target/converter body (positional, struct, pointer-struct, built, generated converters) is checked for real provenance, causal order, assignability and label compatibility, over tens of thousands of generated scenarios repeated to sample map-order tie-breaks. Exploration: held on the executions observed, nothing more.",
-         "Trusts the harness's provenance table and MAY table (30 lines, written from the property text); universe of 6 concrete struct types + 3 interface types, plus 9 exotic types (unnamed slice/pointer/map/func/array, defined twins assignable to them, channels) that replace three of the struct types in one case in eight; <= 9 converters.", "5/C01"),
+         "Trusts the harness's provenance table and MAY table (30 lines, written from the property text); universe of 6 concrete struct types + 3 interface types, plus 9 exotic types (unnamed slice/pointer/map/func/array, defined twins assignable to them, channels) that replace three of the struct types in one case in eight; <= 9 converters. One recorded, unrepaired defect (KNOWN_FINDINGS.txt open: D38, subtype mismatch handed over through a twin interface type) is decided by a fixed case under its own key and printed as KNOWN-FINDING; every other binding violation keeps its key.", "5/C01"),
  "C02": ("derivability fix-point reference model (MAY table) vs. observed outcome and call log",
          "For every scenario with a target parameter outside the MAY least fix-point the monitor requires a non-nil error, no target execution, no fabricated argument, and the dedicated error type when every converter is MUST-satisfiable; hostile shapes (mutual cycles, unreachable prerequisites) are generated on purpose; crashes are caught by the process supervisor.",
          "Underivable is judged by the harness's own fix-point over labels; sampled scenarios only.", "5/C02"),
